@@ -207,12 +207,12 @@ Section LexProofs.
     - replace (Z.of_nat ln + 1 + 1) with (Z.of_nat (S ln) + 1) in H by lia.
       destruct d as [p|g bm l0 c0 stext sl].
       + destruct text as [|c text'].
-        * cbn [dst_of line_start ls_span] in H. rewrite lex_line_nil in H.
+        * cbn [dst_of line_start line_start_reset ls_span] in H. rewrite lex_line_nil in H.
           destruct (lex_lines (Z.of_nat (S ln) + 1) rest (mkLS p None)) as [[toks' st2]| |] eqn:R; try discriminate.
           inversion H; subst. change (mkLS p None) with (dst_of (DNorm p)) in R.
           apply IH in R. destruct R as [d' [R E]]. exists d'. split; [|exact E].
           cbn [app]. apply lxd_blank. exact R.
-        * cbn [dst_of line_start ls_span] in H.
+        * cbn [dst_of line_start line_start_reset ls_span] in H.
           change (mkLS (Z.of_nat ln + 1, 1) None) with (st_of ln 0 Norm) in H.
           destruct (lex_line (line_fuel (c :: text')) (Z.of_nat ln + 1) (c :: text') 0 (st_of ln 0 Norm))
             as [[t1 st1]| |] eqn:R1; try discriminate.
